@@ -10,5 +10,7 @@ d=$(mktemp -d /tmp/variant-XXXXXX)
 trap 'rm -rf "$d"' EXIT
 cp -r /repo/. "$d"/ && rm -rf "$d/.git"
 ( cd "$d" && git init -q . 2>/dev/null && git apply $rev --whitespace=nowarn "$patch" ) || { echo "PATCH-DOES-NOT-APPLY $patch"; exit 4; }
-( cd "$d" && go build ./... ) || { echo "VARIANT-DOES-NOT-BUILD $patch"; exit 5; }
+# -trimpath keeps the build cache keys independent of the scratch directory (otherwise every variant adds
+# ~100 MB to the Go build cache)
+( cd "$d" && go build -trimpath ./... ) || { echo "VARIANT-DOES-NOT-BUILD $patch"; exit 5; }
 ${FZFCHECK:-/verif/bin/fzfcheck} -repo "$d" -prop "$prop" -tier "$tier" -known /verif/known_findings.json -evidence "$d/evidence.json"
